@@ -20,7 +20,7 @@ use crate::{
     },
     socket::{Socket, UdpSocket},
     utils::{maybe_gather, retry_on_timeout, u8_lower_upper},
-    GDErrorKind::{BadGame, Decompress, UnknownEnumCast},
+    GDErrorKind::{BadGame, Decompress, PacketBad, UnknownEnumCast},
     GDResult,
 };
 
@@ -146,7 +146,7 @@ impl ValveProtocol {
         buffer.move_cursor(-1)?;
         if header == 0xFE {
             // the packet is split
-            let mut main_packet = SplitPacket::new(engine, protocol, &mut buffer)?;
+            let main_packet = SplitPacket::new(engine, protocol, &mut buffer)?;
             let mut chunk_packets = Vec::with_capacity(main_packet.total.saturating_sub(1) as usize);
 
             for _ in 1 .. main_packet.total {
@@ -156,8 +156,22 @@ impl ValveProtocol {
                 chunk_packets.push(chunk_packet);
             }
 
+            // The fragments can arrive in any order, the first received is not necessarily number 0
+            chunk_packets.push(main_packet);
             chunk_packets.sort_by(|a, b| a.number.cmp(&b.number));
 
+            if chunk_packets
+                .iter()
+                .enumerate()
+                .any(|(index, packet)| usize::from(packet.number) != index)
+            {
+                return Err(PacketBad.context("Split packet numbers are not 0 .. total (missing or duplicated fragment)"));
+            }
+
+            let mut chunk_packets = chunk_packets.into_iter();
+            let mut main_packet = chunk_packets
+                .next()
+                .ok_or_else(|| PacketBad.context("No split packets"))?;
             for chunk_packet in chunk_packets {
                 main_packet.payload.extend(chunk_packet.payload);
             }
